@@ -19,7 +19,7 @@ var (
 	KeyPool   = []string{"a", "b", "c", "d", "0", "1", "-1", "x/y", "m~n", "~1", "é", "k k", "-", "<&>", "a/b~c", "e f", "%d", "b\\s", "ab", "k\\"}
 	PlainKeys = []string{"a", "b", "c", "d", "e", "f", "k0", "k1"}
 	NumPool   = []string{"0", "1", "-1", "2", "10", "1.0", "1.5", "-0", "1e2", "1E400", "12345678901234567890123", "0.1", "-2.50", "1e-7", "100000000000000000000", "0.30000000000000004", "2E+2", "9007199254740992", "9007199254740993", "1700000000", "1700000001"}
-	StrPool   = []string{"", "a", "b", "x y", "é", "<&>", "q\"uote", "back\\slash", "line\nfeed", "😀", " ", "tab\there", "</script>", "a&b", "u v w", "\u0001ctl", "/", "~", "25% off %s", "%!v(x)", "cr\rlf", "C:\\"}
+	StrPool   = []string{"", "a", "b", "x y", "é", "<&>", "q\"uote", "back\\slash", "line\nfeed", "😀", " ", "tab\there", "</script>", "a&b", "u v w", "\u0001ctl", "/", "~", "25% off %s", "%!v(x)", "cr\rlf", "C:\\", "\U0001F3FF", "\U00010000\U0010FFFF"}
 )
 
 // Cfg selects pools and sizes.
@@ -89,6 +89,9 @@ func (c Cfg) Array(depth int) *rapid.Generator[*ref.V] {
 		if depth > 0 && OneIn(t, 40, "longarr") {
 			// a long array of scalars: two-digit indices, growth of the element slice
 			n = Uniform(t, 11, 40, "alenlong")
+			if OneIn(t, 5, "alenhuge") {
+				n = Uniform(t, 126, 270, "alenhugen") // indices beyond one signed / unsigned byte
+			}
 			for i := 0; i < n; i++ {
 				a.Arr = append(a.Arr, c.Scalar().Draw(t, "le"))
 			}
